@@ -128,6 +128,8 @@ pub enum FeOp {
 	AbandonCall,
 	/// `subscribe_to_method`: register for plain notifications of a method (nothing goes on the wire)
 	RegisterNotif,
+	/// subscribe and keep the stream without ever reading it (its buffer fills up, then it lags)
+	SubscribeHold,
 }
 
 #[derive(Clone, Debug, PartialEq)]
@@ -146,6 +148,9 @@ pub enum EnvEvent {
 	Raw { after: usize, text: String },
 	/// the receiver fails once the wire holds at least `after` messages
 	RecvError { after: usize, what: String },
+	/// ONE array message: `notifs` notifications for the subscription requested by wire message `sub_msg`, followed by
+	/// the answers to every entry of the batch in wire message `batch_msg`
+	PackedNotifsAndBatch { sub_msg: usize, batch_msg: usize, notifs: usize },
 }
 
 #[derive(Clone, Debug, PartialEq)]
@@ -349,7 +354,7 @@ pub fn setup(cfg: &CliScenarioCfg) -> CliState {
 					let r: Result<BatchResponse<Value>, Error> = client.batch_request(b).await;
 					r.map(batch_summary).map_err(|e| err_str(&e))
 				}
-				FeOp::Subscribe | FeOp::SubscribeDrop | FeOp::RegisterNotif => {
+				FeOp::Subscribe | FeOp::SubscribeDrop | FeOp::RegisterNotif | FeOp::SubscribeHold => {
 					let r: Result<Subscription<Value>, Error> = if op == FeOp::RegisterNotif {
 						client.subscribe_to_method(&format!("evt{i}")).await
 					} else {
@@ -367,6 +372,10 @@ pub fn setup(cfg: &CliScenarioCfg) -> CliState {
 							log.lock().unwrap().status[i] = OpStatus::Ok(kind.clone());
 							log.lock().unwrap().done_pos[i] = Some(sched::pos());
 							sched::log(format!("fe:{i}:subscribed:{kind}"));
+							if op == FeOp::SubscribeHold {
+								// the application holds the stream but does not read it
+								std::future::pending::<()>().await;
+							}
 							while let Some(item) = sub.next().await {
 								let s = item.map(|v| v.to_string()).unwrap_or_else(|e| format!("decode-error:{e}"));
 								sched::log(format!("fe:{i}:item:{s}"));
@@ -426,6 +435,16 @@ pub fn setup(cfg: &CliScenarioCfg) -> CliState {
 					sched::point(format!("env:raw:{k}")).await;
 					Ok(ReceivedMessage::Text(text.clone()))
 				}
+				EnvEvent::PackedNotifsAndBatch { sub_msg, batch_msg, notifs } => {
+					shared.wait_sent(*sub_msg.max(batch_msg)).await;
+					let b = shared.sent_msg(*batch_msg).unwrap();
+					sched::point(format!("env:packed:{k}")).await;
+					let mut items: Vec<Value> = (0..*notifs).map(|j| json!({"jsonrpc":"2.0","method":"n","params":{"subscription": format!("S{sub_msg}"), "result": j}})).collect();
+					if let Ok(Value::Array(a)) = serde_json::from_str::<Value>(&answer_for(&b, *batch_msg, &AnswerKind::Ok)) {
+						items.extend(a);
+					}
+					Ok(ReceivedMessage::Text(Value::Array(items).to_string()))
+				}
 				EnvEvent::RecvError { after, what } => {
 					if *after > 0 {
 						shared.wait_sent(*after - 1).await;
@@ -471,7 +490,7 @@ pub fn wire_index_of(sent: &[String], op: &FeOp, i: usize) -> Option<usize> {
 		let Ok(v) = serde_json::from_str::<Value>(m) else { return false };
 		match op {
 			FeOp::Batch(_) | FeOp::LateBatch(_) => v.as_array().map_or(false, |a| a.first().and_then(|e| e.get("method")).and_then(|x| x.as_str()) == Some(&format!("bm{i}"))),
-			FeOp::Subscribe | FeOp::SubscribeDrop => v.get("method").and_then(|x| x.as_str()) == Some("sub") && v.get("params") == Some(&json!([i])),
+			FeOp::Subscribe | FeOp::SubscribeDrop | FeOp::SubscribeHold => v.get("method").and_then(|x| x.as_str()) == Some("sub") && v.get("params") == Some(&json!([i])),
 			FeOp::Notif => v.get("method").and_then(|x| x.as_str()) == Some("note") && v.get("params") == Some(&json!([i])),
 			FeOp::Call | FeOp::LateCall | FeOp::AbandonCall => v.get("method").and_then(|x| x.as_str()) == Some("m") && v.get("params") == Some(&json!([i])),
 			FeOp::RegisterNotif => false,
